@@ -292,7 +292,10 @@ func c10Gen(c *core.Ctx) c10Case {
 	case 9: // HTTPS / SVCB
 		rr := pick([]string{"HTTPS", "SVCB"})
 		prio, target := pick(c10Nums), pick(append([]string{"."}, c10Hosts...))
-		params := pick([]string{"", " alpn=h3", " alpn=h3 port=443", " ipv4hint=1.2.3.4"})
+		params := pick([]string{"", " alpn=h3", " alpn=h3 port=443", " ipv4hint=1.2.3.4",
+			// The generic spelling of parameter keys, next to registered names
+			// and to itself, and a key written twice.
+			" key1=h3", " alpn=h2 key1=h3", " port=443 key3=8443", " key65535=x", " key01=a key1=b", " alpn=h2 alpn=h3", " mandatory=alpn alpn=h2 key7=/q", " dohpath=/a key7=/b key07=/c"})
 		good := true
 		switch c.Rng.Intn(5) {
 		case 0:
@@ -308,7 +311,12 @@ func c10Gen(c *core.Ctx) c10Case {
 			cs.Check = func(v any) bool {
 				s, ok := v.(*rules.DNSSVCB)
 
-				return ok && s != nil && s.Target == target && fmt.Sprint(s.Priority) == prio && len(s.Params) == strings.Count(params, "=")
+				keys := map[string]bool{}
+				for _, kv := range strings.Fields(params) {
+					keys[strings.SplitN(kv, "=", 2)[0]] = true
+				}
+
+				return ok && s != nil && s.Target == target && fmt.Sprint(s.Priority) == prio && len(s.Params) == len(keys)
 			}
 		} else if !strings.Contains(target, " ") && prio != "" {
 			cs.Expect = c10Invalid
@@ -438,6 +446,19 @@ func c10Check(c *core.Ctx, cs c10Case) {
 
 		return
 	}
+	if e1 == nil && strings.Count(cs.Value, "=") >= 2 {
+		// Values with several key=value parameters go through a map: more
+		// parses, since an order-dependent outcome shows only now and then.
+		for i := 0; i < 24; i++ {
+			r3, e3 := rules.NewNetworkRule(text, 1)
+			if e3 != nil || !reflect.DeepEqual(r1.DNSRewrite, r3.DNSRewrite) {
+				c.Violation("nondeterministic-parse", nil, w, "parsing %q again (%d) gives a different result", text, i+3)
+
+				return
+			}
+		}
+		c.Event("values_with_several_parameters_parsed_26_times", 1)
+	}
 	if e1 != nil {
 		c.Event("rejected", 1)
 		if cs.Expect == c10Valid && !strings.ContainsAny(cs.Value, ",$") {
@@ -495,6 +516,7 @@ func init() {
 		ID:    "C10",
 		Level: "exploration",
 		Rule: "per case 48 values: grammar-generated around every keyword, all record type names of miekg/dns and all RCODE names in mixed case, 0..4 delimiters, field counts +-1 around each handler's arity, numeric bounds (-1, 0, 65535, 65536, +1, empty), labels of 1/63/64 characters, IPv4/IPv6/mapped/zoned/bracketed addresses, each also with 1..3 byte mutations, and pairs of values joined by ',dnsrewrite=' (the modifier written twice); " +
+			"SVCB parameters include generic keyN spellings and repeated keys, and values with two or more parameters are parsed 26 times; " +
 			"every accepted value must satisfy the shape predicate of the RRValue contract, survive a consumer that type-asserts by record type, parse deterministically, and agree with the generator's expectation where the grammar determines it (valid => expected content, malformed => error); non-trivial = accepted value; distinct by value",
 		Assumptions: []string{
 			"expectations are only asserted for values whose validity the documented grammar decides; mutated values are judged by the shape predicate alone",
